@@ -8,7 +8,8 @@ LEVEL_TEXT["C19"] = (
     "given the uniform_int_distribution contract; _periodogram(c*x) = c^2*_periodogram(x) with no hypothesis, _harm_analyze equivariant under every "
     "k > 0 (peak search, descents, argmax, positive-bin filter, sort inside median are order-only; sums, centroid, median floor scale) => "
     "snr, sinad, thd value and harmonic frequencies of c*x equal those of x for every c != 0, every signal, window, nharm, aliased. "
-    "Tie: model vs implementation — awgn bit-exact with the drawn values as inputs; snr/sinad/thd(Psd) bit-exact on every spectrum over a 4-letter "
+    "Tie: the deviation formulas of awgn (rms(arr)*pow(10,(-1)*snr/20), sqrt(0.5)*rms(arr)*pow(...)) are REGENERATED from lib/awgn.cpp's AST on every run "
+    "(Gen/Awgn.lean) and the scale theorems are stated about these generated definitions; model vs implementation — awgn bit-exact with the drawn values as inputs; snr/sinad/thd(Psd) bit-exact on every spectrum over a 4-letter "
     "alphabet up to 5 (6) bins, random spectra with ties/zeros and real periodograms; _periodogram (public-API replica, tied bit-exactly to the internal "
     "one through thd(Time) == thd(replica, Psd)) vs the model's textbook DFT; rand/randn/randi/awgn streams bit-exact vs the model's "
     "std::mt19937 + libstdc++-12 generate_canonical / normal (polar) / uniform_int (Lemire). "
@@ -17,7 +18,7 @@ LEVEL_TEXT["C19"] = (
 )
 
 PROPS["C19"] = {
-    "gen": ["Cmplx"],
+    "gen": ["Cmplx", "Awgn"],
     "lean_props": "DspVerif.Props.C19",
     "harness": [{"src": "c19.cpp", "cfg": "rel",
                  "tol": {"awgnR": (0.0, 0.0), "awgnC": (0.0, 0.0), "stream": (0.0, 0.0), "harm": (1e-13, 0.0),
